@@ -37,16 +37,17 @@ type fileInfo struct {
 }
 
 type eventRec struct {
-	Kind   string               `json:"kind"`
-	K      int                  `json:"k"`
-	Ev     string               `json:"ev"`
-	File   string               `json:"file"`
-	N      int64                `json:"n"`
-	OpIdx  int                  `json:"op"`
-	Files  map[string]fileInfo  `json:"files,omitempty"`
+	Kind  string              `json:"kind"`
+	K     int                 `json:"k"`
+	Ev    string              `json:"ev"`
+	File  string              `json:"file"`
+	N     int64               `json:"n"`
+	OpIdx int                 `json:"op"`
+	Files map[string]fileInfo `json:"files,omitempty"`
 }
 
 type crashRun struct {
+	crash2n  int
 	base     string
 	s        *session
 	events   []eventRec
@@ -341,73 +342,128 @@ func crashMain(a []string) {
 				}
 			}
 		}
-		for vi, cut := range variants {
-			work := filepath.Join(c.base, "work")
-			os.RemoveAll(work)
-			copyDirSparse(filepath.Join(img, "d"), filepath.Join(work, "d"))
-			if _, err := os.Stat(filepath.Join(img, "d-merge")); err == nil {
-				copyDirSparse(filepath.Join(img, "d-merge"), filepath.Join(work, "d-merge"))
-			}
-			for n, x := range cut {
-				p := filepath.Join(work, n)
-				st, _ := os.Stat(p)
-				os.Truncate(p, x)
-				if c.mmap && st != nil {
-					os.Truncate(p, st.Size()) // an mmap file keeps its size; the lost bytes read as zeros
-				}
-			}
-			resImg := map[string]interface{}{"kind": "image", "k": e.K, "variant": vi, "cut": cut, "ev": e.Ev, "op": e.OpIdx}
-			if opts["dumpfiles"] == "1" {
-				resImg["files"] = dumpFiles(work)
-				dirs := []string{}
-				for _, d := range []string{"d", "d-merge"} {
-					if st, err := os.Stat(filepath.Join(work, d)); err == nil && st.IsDir() {
-						dirs = append(dirs, d)
+		// removal of a leftover merge directory (os.RemoveAll) is not atomic: the process may die after any of its unlinks.
+		// Variants of the image at that point: each single file of the merge directory already gone, and all of its data
+		// files gone - with whatever else (the marker in particular) the code has left in place at this point.
+		rmVariants := [][]string{nil}
+		if e.Ev == "merge.rmleftover" {
+			if ents, err := os.ReadDir(filepath.Join(img, "d-merge")); err == nil {
+				var all []string
+				for _, en := range ents {
+					if strings.HasSuffix(en.Name(), ".merge-finished") || en.Name() == ".lock" {
+						continue
+					}
+					rmVariants = append(rmVariants, []string{en.Name()})
+					if strings.HasSuffix(en.Name(), ".data") {
+						all = append(all, en.Name())
 					}
 				}
-				resImg["dirs"] = dirs
+				if len(all) > 1 {
+					rmVariants = append(rmVariants, all)
+				}
 			}
-			s2 := newSession(work)
-			r1 := s2.exec("open d " + readerCfg)
-			resImg["open"] = r1
-			if r1 == "ok" {
-				resImg["dump"] = s2.exec("dump")
-				resImg["stat"] = s2.exec("stat")
-				resImg["scanstat"] = s2.exec("scanstat")
-				// recovery must leave a directory that keeps working: write, restart, read
-				resImg["put"] = s2.exec("put 7a7a7a x5a")
-				// a later committed batch must not seal the leftovers of a batch that died before its commit
-				s2.exec("bnew 0 7999999")
-				s2.exec("bput 7a7a7b x5b")
-				resImg["bcommit"] = s2.exec("bcommit")
-				s2.exec("bdrop")
-				if opts["postmerge"] == "1" {
-					// after recovery: delete the first recovered key, run a complete Merge, restart (adoption).
-					// A merge interrupted earlier must not leak into this one.
-					d := s2.exec("dump")
-					if i := strings.Index(d, " "); i > 0 {
-						if f := strings.Fields(d); len(f) > 2 {
-							first := strings.SplitN(strings.SplitN(f[2], ",", 2)[0], "=", 2)[0]
-							resImg["victim"] = first
-							resImg["del"] = s2.exec("del " + first)
+			variants = variants[:1]
+		}
+		for ri, rmv := range rmVariants {
+			for vi, cut := range variants {
+				if ri > 0 && vi > 0 {
+					continue
+				}
+				work := filepath.Join(c.base, "work")
+				os.RemoveAll(work)
+				copyDirSparse(filepath.Join(img, "d"), filepath.Join(work, "d"))
+				if _, err := os.Stat(filepath.Join(img, "d-merge")); err == nil {
+					copyDirSparse(filepath.Join(img, "d-merge"), filepath.Join(work, "d-merge"))
+				}
+				for n, x := range cut {
+					p := filepath.Join(work, n)
+					st, _ := os.Stat(p)
+					os.Truncate(p, x)
+					if c.mmap && st != nil {
+						os.Truncate(p, st.Size()) // an mmap file keeps its size; the lost bytes read as zeros
+					}
+				}
+				for _, n := range rmv {
+					os.Remove(filepath.Join(work, "d-merge", n))
+				}
+				resImg := map[string]interface{}{"kind": "image", "k": e.K, "variant": vi + 100*ri, "cut": cut, "ev": e.Ev, "op": e.OpIdx}
+				if rmv != nil {
+					resImg["rm"] = rmv
+				}
+				if opts["dumpfiles"] == "1" {
+					resImg["files"] = dumpFiles(work)
+					dirs := []string{}
+					for _, d := range []string{"d", "d-merge"} {
+						if st, err := os.Stat(filepath.Join(work, d)); err == nil && st.IsDir() {
+							dirs = append(dirs, d)
 						}
 					}
-					resImg["merge"] = s2.exec("merge")
+					resImg["dirs"] = dirs
 				}
-				resImg["close"] = s2.exec("close")
-				resImg["listing"] = listDir(filepath.Join(work, "d"))
-				resImg["mergedir"] = listDir(filepath.Join(work, "d-merge"))
-				r2 := s2.exec("open d " + readerCfg)
-				resImg["open2"] = r2
-				if r2 == "ok" {
-					resImg["dump2"] = s2.exec("dump")
-					s2.exec("close")
+				s2 := newSession(work)
+				r1 := s2.exec("open d " + readerCfg)
+				resImg["open"] = r1
+				if r1 == "ok" {
+					resImg["dump"] = s2.exec("dump")
+					resImg["stat"] = s2.exec("stat")
+					resImg["scanstat"] = s2.exec("scanstat")
+					// recovery must leave a directory that keeps working: write, restart, read
+					resImg["put"] = s2.exec("put 7a7a7a x5a")
+					// a later committed batch must not seal the leftovers of a batch that died before its commit
+					s2.exec("bnew 0 7999999")
+					s2.exec("bput 7a7a7b x5b")
+					resImg["bcommit"] = s2.exec("bcommit")
+					s2.exec("bdrop")
+					// a SECOND crash (process death, no Close) right after the recovery and these writes: the image is the
+					// directory as the OS sees it now.  Everything acknowledged so far must be there - in particular whatever
+					// recovery cut away logically must not resurface behind the new records (pre-extended mmap files).
+					// (under mmap every Open of an unclean image reads and clears the 512 MiB extension: only images with a cut
+					// tail - the ones recovery truncates - and at most 8 of them per run)
+					if opts["crash2"] != "0" && (!c.mmap || (cut != nil && c.crash2n < 8)) {
+						c.crash2n++
+						w3 := filepath.Join(c.base, "work3")
+						os.RemoveAll(w3)
+						copyDirSparse(filepath.Join(work, "d"), filepath.Join(w3, "d"))
+						if _, err := os.Stat(filepath.Join(work, "d-merge")); err == nil {
+							copyDirSparse(filepath.Join(work, "d-merge"), filepath.Join(w3, "d-merge"))
+						}
+						s3 := newSession(w3)
+						r3 := s3.exec("open d " + readerCfg)
+						resImg["c2open"] = r3
+						if r3 == "ok" {
+							resImg["c2dump"] = s3.exec("dump")
+							s3.exec("close")
+						}
+						os.RemoveAll(w3)
+					}
+					if opts["postmerge"] == "1" {
+						// after recovery: delete the first recovered key, run a complete Merge, restart (adoption).
+						// A merge interrupted earlier must not leak into this one.
+						d := s2.exec("dump")
+						if i := strings.Index(d, " "); i > 0 {
+							if f := strings.Fields(d); len(f) > 2 {
+								first := strings.SplitN(strings.SplitN(f[2], ",", 2)[0], "=", 2)[0]
+								resImg["victim"] = first
+								resImg["del"] = s2.exec("del " + first)
+							}
+						}
+						resImg["merge"] = s2.exec("merge")
+					}
+					resImg["close"] = s2.exec("close")
+					resImg["listing"] = listDir(filepath.Join(work, "d"))
+					resImg["mergedir"] = listDir(filepath.Join(work, "d-merge"))
+					r2 := s2.exec("open d " + readerCfg)
+					resImg["open2"] = r2
+					if r2 == "ok" {
+						resImg["dump2"] = s2.exec("dump")
+						s2.exec("close")
+					}
 				}
-			}
-			enc.Encode(resImg)
-			c.out.Flush()
-			if level2 && vi == 0 && (strings.HasPrefix(e.Ev, "adopt.") || strings.HasPrefix(e.Ev, "merge.") || e.File == "" || strings.Contains(e.File, "merge")) {
-				c.secondLevel(enc, img, e, readerCfg)
+				enc.Encode(resImg)
+				c.out.Flush()
+				if level2 && vi == 0 && ri == 0 && (strings.HasPrefix(e.Ev, "adopt.") || strings.HasPrefix(e.Ev, "merge.") || e.File == "" || strings.Contains(e.File, "merge")) {
+					c.secondLevel(enc, img, e, readerCfg)
+				}
 			}
 		}
 		os.RemoveAll(img)
